@@ -249,7 +249,7 @@ def g_header(s):
     word = s.choice(["language", "language", "language", "Language", "languag", "lang uage", "LANGUAGE"])
     name = s.choice(["fr", "fr", "en", "no", "en-lol", "en-Scouse", "sr-Cyrl", "zh-CN", "zz", "xx-yy", "f1", "fr x", "", "fr,en", "_", "-", "émoji",
                      "[fr]", "`en`", "en^", "fr\\", "es-419", "fr2", "français", "en.us", "EN", "Fr", "en_au", "en-au", "en_lol", "sr_Cyrl", "zh_CN", "en-tx", "en_tx",
-                     "fr]", "^", "no\x0b", "日本", "ja", "en-", "-en", "e n"])
+                     "fr]", "^", "no\x0b", "日本", "ja", "en-", "-en", "e n", "pt--BR", "_fr", "fr_", "a__b", "-_-", "en-_au"])
     colon = s.choice([":", ":", ":", "", "::", " ="])
     hdr = s.choice(ws) + "#" + s.choice(ws) + word + s.choice(ws) + colon + s.choice(ws) + name + s.choice(ws + ["\r", " \t", " x", "#"])
     pos = s.choice(["top", "top", "after-comment", "after-blank", "after-tag", "after-feature", "second-header"])
